@@ -750,16 +750,25 @@ func (l *loader) loadFloatAttribute(baseAtt *attribute, pFloatAtt *acmelibv1.Flo
 }
 
 func (l *loader) loadEnumAttribute(baseAtt *attribute, pEnumAtt *acmelibv1.EnumAttribute) (*EnumAttribute, error) {
-	values := make([]string, len(pEnumAtt.Values))
-	values[0] = pEnumAtt.DefValue
-	idx := 1
+	// the default value is the first value of the attribute
+	values := make([]string, 0, len(pEnumAtt.Values))
+	values = append(values, pEnumAtt.DefValue)
+	hasDefValue := false
 	for _, val := range pEnumAtt.Values {
 		if val == pEnumAtt.DefValue {
+			hasDefValue = true
 			continue
 		}
-		values[idx] = val
-		idx++
+		values = append(values, val)
 	}
+
+	if !hasDefValue {
+		return nil, &ArgumentError{
+			Name: "def_value",
+			Err:  ErrNotFound,
+		}
+	}
+
 	return newEnumAttributeFromBase(baseAtt, values...)
 }
 
